@@ -22,7 +22,7 @@ import os
 import re
 
 from vlib.hostlist import hx, unhx, LIMIT, parse_probe, parse_spec
-from vlib.printcheck import (Gen, PrintRunner, PrintCli, FIXED, Rec, parse_dump, parse_sweep, judge_sweep, all_hosts,
+from vlib.printcheck import (Gen, PrintRunner, PrintCli, FIXED, Rec, small_scope, parse_dump, parse_sweep, judge_sweep, all_hosts,
                              parseback_signature, exact_fill, meta_name, meta_prefix, big_range, long_name)
 from vlib.seqrun import run_batch
 
@@ -72,7 +72,8 @@ def run(ctx):
                    "two-bracket words, long names), (b) by incremental hostlist_push of names/expressions with runs that "
                    "coalesce, followed by delete_nth / delete_host / sort / uniq, (c) from raw range-record sequences "
                    "(adjacent uncoalesced ranges, mixed widths, numbers around 10^k, 2^32, 2^63, 2^64-2), (d) from names "
-                   "whose text ends within +-2 of 16..1024 bytes, optionally followed by more hosts; every list is "
+                   "whose text ends within +-2 of 16..1024 bytes, optionally followed by more hosts, (e) exhaustively: every "
+                   "sequence of up to 2 (quick) / 4 (thorough) records over 8 record shapes; every list is "
                    "printed in both forms for EVERY n from 1 to text length + 2; one evaluation = one (list, form, n) "
                    "call; non-trivial = a list with >= 2 range records whose compressed text has a bracket or whose "
                    "expanded text has >= 3 hosts; distinct = distinct record dump"}
@@ -91,7 +92,8 @@ def run(ctx):
             for s in FIXED + load_corpus():
                 cases.append({"origin": "corpus", "ops": ["create " + hx(s)], "desc": s[:200].decode("latin1")})
             cases.append({"origin": "corpus", "ops": ["create " + hx(b"foo[1-2]-[0-1]")], "desc": "foo[1-2]-[0-1]"})
-            n = 330 if ctx.quick() else 9000
+            cases.extend(small_scope(2 if ctx.quick() else 4))
+            n = 300 if ctx.quick() else 6000
             for i in range(n):
                 r = rng.random()
                 cases.append(gen.create() if r < 0.38 else gen.pushes() if r < 0.62 else gen.raw() if r < 0.88
